@@ -3,8 +3,8 @@
    The model (Model/C01.v: step, iter_all, ...) is the one the lock-step correspondence evaluates
    against the real Part after every operation; Inv / valid_op / abs / spec_* are in Model/C01_Spec.v;
    ct_* (Gen/C01_ClassTree.v) is the TimedObject class tree reflected from partitura.score on every run. *)
-From PV Require Import Lib.Base Gen.C01_ClassTree Model.C01 Model.C01_Tree Model.C01_Spec
-  Proofs.C01_tree Proofs.C01_inv Proofs.C01_main Proofs.C01_query.
+From PV Require Import Lib.Base Gen.C01_ClassTree Model.C01 Model.C01_Tree Model.C01_Spec Model.C01_Idx Model.C01_Dict
+  Proofs.C01_tree Proofs.C01_inv Proofs.C01_main Proofs.C01_query Proofs.C01_idx Proofs.C01_dict.
 From Coq Require Import Sorting.Sorted Sorting.Permutation.
 
 (* ------------------------------------------------------------------ O1: the invariant, every reachable state *)
@@ -200,6 +200,117 @@ Theorem diamond_once :
   end.
 Proof. exact diamond_lemma. Qed.
 Print Assumptions diamond_once.
+
+(* ------------------------------------------------------------------ the index-level code (Model/C01_Idx.v) *)
+(* the binary search np.searchsorted runs with ComparableMixin's `<` returns the number of time points strictly
+   before t (TimePoint(np.inf): all of them) -- the index every insertion / deletion / slice of the code uses *)
+Theorem searchsorted_counts : forall p t, InvW p ->
+  idx_of (points p) (Some t) = List.length (filter (fun x => pt x <? t) (points p)) /\
+  idx_of (points p) None = List.length (points p).
+Proof. exact searchsorted_counts_lemma. Qed.
+Print Assumptions searchsorted_counts.
+
+(* rich comparison of time points is comparison of their times, for all six operators *)
+Theorem tp_compare_by_time : forall m x y,
+  tp_compare m x (cmpkey y) = true <->
+  match m with CLt => pt x < pt y | CLe => pt x <= pt y | CEq => pt x = pt y
+             | CGe => pt x >= pt y | CGt => pt x > pt y | CNe => pt x <> pt y end.
+Proof. exact tp_compare_spec_lemma. Qed.
+Print Assumptions tp_compare_by_time.
+
+(* ... under which the timeline is strictly increasing by position and == identifies the point *)
+Theorem timeline_ordered : forall p, InvW p -> forall i j x y,
+  nth_error (points p) i = Some x -> nth_error (points p) j = Some y ->
+  (tp_compare CLt x (cmpkey y) = true <-> (i < j)%nat) /\ (tp_compare CEq x (cmpkey y) = true <-> x = y).
+Proof. exact timeline_ordered_lemma. Qed.
+Print Assumptions timeline_ordered.
+
+(* every operation, computed with the code's index arithmetic (insert at i with the `i > 0` / `i < len - 1`
+   relinking, delete at i with `i > 0` / `i < len`, the table update at i, `points[start_idx:end_idx]`) and with
+   the CACHED quarter map, gives the list-level result -- and the cache is the current table afterwards *)
+Theorem step_idx_eq : forall p o, InvW p -> valid_op p o \/ rejected o ->
+  step_idx (p, qtab p) o = ((fst (step p o), qtab (fst (step p o))), snd (step p o)).
+Proof. exact step_idx_eq_lemma. Qed.
+Print Assumptions step_idx_eq.
+
+(* hence along every history (rejected calls included) the index-level run IS the list-level run, so every
+   theorem above holds of it, and the cached quarter map never goes stale *)
+Theorem run_idx_eq : forall q0 ops, mixed_run (init q0) ops ->
+  run_idx (init_idx q0) ops = (run (init q0) ops, qtab (run (init q0) ops)).
+Proof. exact reachable_idx_lemma. Qed.
+Print Assumptions run_idx_eq.
+
+(* the slices / lookups of the queries by index are the half-open windows of the list-level model *)
+Theorem queries_idx_eq : forall p, InvW p ->
+  (forall c a b sub mode, iter_all_idx p c a b sub mode = iter_all p c a b sub mode) /\
+  (forall t, get_point_idx t (points p) = get_point t (points p)) /\
+  first_point_idx p = first_point p /\ last_point_idx p = last_point p.
+Proof. exact queries_idx_eq_lemma. Qed.
+Print Assumptions queries_idx_eq.
+
+Theorem idx_nontrivial :
+  mixed_run (init 1) ex_ops /\
+  run_idx (init_idx 1) ex_ops = (run (init 1) ex_ops, [(0, 1); (4, 1)]) /\
+  map (fun t => idx_of (points (fst (run_idx (init_idx 1) ex_ops))) t) [Some 0; Some 4; Some 5; Some 12; Some 13; None]
+  = [0; 1; 2; 3; 4; 4]%nat.
+Proof. exact idx_nontrivial_lemma. Qed.
+Print Assumptions idx_nontrivial.
+
+(* ------------------------------------------------------------------ the registries as the code has them (Model/C01_Dict.v) *)
+(* starting_objects / ending_objects are class-keyed defaultdicts of ordered sets.  part_rel dp p: the
+   registry-level part dp implements the flat part p (same times, each dictionary's bucket for class c is the
+   class-c part of the flat registry, same back references).  EVERY operation -- valid, rejected or invalid --
+   preserves it: filing under type(obj), silent pop, bucket creation on lookup and the clean-up decision by the
+   sum of the bucket sizes together do what the flat lists do *)
+Theorem dict_step_refines : forall dp p o, part_rel dp p -> part_rel (dstep dp o) (fst (step p o)).
+Proof. exact dstep_refines_lemma. Qed.
+Print Assumptions dict_step_refines.
+
+(* a query changes nothing that is listed (it only leaves empty buckets behind), and iter_all for a class yields
+   the very list the flat model yields *)
+Theorem dict_query_refines : forall dp p q, part_rel dp p ->
+  part_rel (fst (dquery dp q)) p /\
+  (forall k a b sub mode, q = QIterAll (Some k) a b sub mode ->
+     snd (dquery dp q) = Some (iter_all p (Some k) a b sub mode)).
+Proof. exact dquery_refines_lemma. Qed.
+Print Assumptions dict_query_refines.
+
+(* along every history with queries interleaved anywhere (on the flat model a query is a no-op) *)
+Theorem dict_history_refines : forall q0 es, part_rel (devents dinit es) (fevents (init q0) es).
+Proof. exact reachable_dict_lemma. Qed.
+Print Assumptions dict_history_refines.
+
+(* what the relation gives, point by point: _cleanup_point's test (sum of bucket sizes = 0) holds exactly when the
+   point lists nothing, whatever empty buckets there are; each bucket is the class-c part; same objects listed *)
+Theorem dict_rel_facts : forall dp p, part_rel dp p ->
+  map dpt (dpoints dp) = map pt (points p) /\
+  Forall2 (fun dq q => (d_is_empty dq = true <-> pstart q = [] /\ pend q = []) /\
+                       (forall c, d_bucket c (dstart dq) = by_cls c (pstart q)) /\
+                       (forall c, d_bucket c (dend dq) = by_cls c (pend q)) /\
+                       (forall o, In o (d_flat (dstart dq)) <-> In o (pstart q)) /\
+                       (forall o, In o (d_flat (dend dq)) <-> In o (pend q)))
+          (dpoints dp) (points p).
+Proof. exact part_rel_facts_lemma. Qed.
+Print Assumptions dict_rel_facts.
+
+(* touching a bucket (any lookup) never changes the clean-up decision *)
+Theorem dict_touch_total : forall c d, d_total (d_touch c d) = d_total d.
+Proof. exact d_total_touch. Qed.
+Print Assumptions dict_touch_total.
+
+(* cls=None (object + subclasses): inside the reflected tree the buckets visited are all buckets *)
+Theorem dict_iter_none : forall d l, bucket_rel d l -> (forall o, In o l -> valid_cls (ocls o)) ->
+  forall o, In o (snd (d_iter None true d)) <-> In o l.
+Proof. exact d_iter_none_lemma. Qed.
+Print Assumptions dict_iter_none.
+
+Theorem dict_nontrivial :
+  forallb (fun q => (dpt q =? 8) && (2 <? List.length (dstart q))%nat && (d_total (dstart q) =? 1)%nat)
+          (dpoints (devents dinit (firstn 2 dict_ex))) = true /\
+  List.length (dpoints (devents dinit (firstn 2 dict_ex))) = 1%nat /\
+  dpoints (devents dinit dict_ex) = [] /\ points (fevents (init 1) dict_ex) = [].
+Proof. exact dict_nontrivial_lemma. Qed.
+Print Assumptions dict_nontrivial.
 
 (* ------------------------------------------------------------------ the hypotheses are satisfiable *)
 (* a reachable 4-point part with shared points, a replaced quarter duration and a removal meets Inv *)
